@@ -87,6 +87,15 @@ func (g *LayoutGen) surround() {
 	if g.Cfg.Comments && g.chance(0.3) {
 		trail = " // " + g.c("trailing "+id)
 	}
+	if g.chance(0.08) {
+		// a go:generate directive that has nothing to do with the converter interfaces
+		if g.chance(0.5) {
+			doc += "//go:generate echo " + id + "\n"
+		} else {
+			g.sb.WriteString("//go:generate echo floating" + id + "\n\n")
+		}
+		g.vec = append(g.vec, "foreign-generate")
+	}
 	switch k {
 	case 0:
 		fmt.Fprintf(&g.sb, "%sconst K%s = %d%s\n", doc, id, g.R.Intn(100), trail)
